@@ -192,6 +192,21 @@ func TestVerif_Decode(t *testing.T) {
 	if vThorough() {
 		stride = 3
 	}
+	// the limits of the framing rules, with the declared bytes actually present: the smallest frames each reader must
+	// accept (1 byte; type + id for the filexfer reader), and the largest (exactly 256 KiB is legal, one more is refused)
+	if skip == 0 {
+		tr.reset(kv{"kind": "decode", "case": 0, "typ": 0, "desc": "framing limits"})
+		tr.flush()
+		for _, n := range []int{1, 2, 4, 5, 6, 9, 256*1024 - 1, 256 * 1024, 256*1024 + 1} {
+			fr := make([]byte, 4+n)
+			binary.BigEndian.PutUint32(fr, uint32(n))
+			fr[4] = tWrite
+			if n <= 9 {
+				fr[4] = tInit
+			}
+			frameCalls(tr, fr, fmt.Sprintf("limit=%d", n))
+		}
+	}
 	for i, c := range cases {
 		if (i+int(vSeed()))%stride != 0 {
 			continue
